@@ -459,13 +459,13 @@ Proof. exact step_open_nocreate. Qed.
 (* O_CREATE without O_EXCL (a final link is followed) *)
 Theorem C01_step_open_create : forall (s : fsys) (sv : sview) (vi : nat) (w : list str) (cl : str) (flag perm : N),
   step_hyps s sv -> path_ok s sv SlLstat (w ++ [cl]) -> path_ok s sv SlEval (w ++ [cl]) ->
-  no_setgid_parent_follow s sv (w ++ [cl]) -> has flag O_CREATE = true -> has flag O_EXCL = false ->
+  has flag O_CREATE = true -> has flag O_EXCL = false ->
   open_sim (open_file s (sv_view sv) vi (abs_path (w ++ [cl])) flag perm) (k_open s sv (abs_path (w ++ [cl])) flag perm).
 Proof. exact step_open_create. Qed.
 
 (* O_CREATE with O_EXCL (a final link is not followed: EEXIST, also on a dangling link) *)
 Theorem C01_step_open_excl : forall (s : fsys) (sv : sview) (vi : nat) (w : list str) (cl : str) (flag perm : N),
-  step_hyps s sv -> path_ok s sv SlLstat (w ++ [cl]) -> no_setgid_parent s sv (w ++ [cl]) ->
+  step_hyps s sv -> path_ok s sv SlLstat (w ++ [cl]) ->
   has flag O_CREATE = true -> has flag O_EXCL = true ->
   let p := abs_path (w ++ [cl]) in
   open_sim (open_file s (sv_view sv) vi p flag perm) (k_open s sv p flag perm).
@@ -506,12 +506,12 @@ Theorem C01_rel_name_resolved : forall (s : fsys) (sv : sview) (bs : list str) (
 Proof. exact rel_name_resolved. Qed.
 
 Theorem C01_step_mkdir_p : forall (s : fsys) (sv : sview) (p cl : str), step_hyps s sv -> name_path p cl -> forall perm : N,
-  resolved s sv SlLstat p -> no_setgid_p s sv false p ->
+  resolved s sv SlLstat p ->
   (fst (mkdir s (sv_view sv) p perm), proj_res Linux (snd (mkdir s (sv_view sv) p perm))) = k_mkdir s sv p perm.
 Proof. exact step_mkdir_p. Qed.
 
 Theorem C01_step_symlink_p : forall (s : fsys) (sv : sview) (p cl : str), step_hyps s sv -> name_path p cl -> forall t : str,
-  resolved s sv SlLstat p -> no_setgid_p s sv false p ->
+  resolved s sv SlLstat p ->
   (fst (symlink s (sv_view sv) t p), proj_res Linux (snd (symlink s (sv_view sv) t p))) = k_symlink s sv (clean Linux t) p.
 Proof. exact step_symlink_p. Qed.
 
@@ -522,21 +522,21 @@ Proof. exact step_link_p. Qed.
 
 Theorem C01_step_write_file_p : forall (s : fsys) (sv : sview) (p cl : str) (data : list N) (perm : N),
   step_hyps s sv -> name_path p cl ->
-  resolved s sv SlLstat p -> resolved s sv SlEval p -> no_setgid_p s sv true p ->
+  resolved s sv SlLstat p -> resolved s sv SlEval p ->
   (fst (write_file s (sv_view sv) p data perm), proj_res Linux (snd (write_file s (sv_view sv) p data perm)))
   = go_write_file s sv p data perm.
 Proof. exact step_write_file_p. Qed.
 
 Theorem C01_step_open_create_p : forall (s : fsys) (sv : sview) (vi : nat) (p cl : str) (flag perm : N),
   step_hyps s sv -> name_path p cl ->
-  resolved s sv SlLstat p -> resolved s sv SlEval p -> no_setgid_p s sv true p ->
+  resolved s sv SlLstat p -> resolved s sv SlEval p ->
   has flag O_CREATE = true -> has flag O_EXCL = false ->
   open_sim (open_file s (sv_view sv) vi p flag perm) (k_open s sv p flag perm).
 Proof. exact step_open_create_p. Qed.
 
 Theorem C01_step_open_excl_p : forall (s : fsys) (sv : sview) (vi : nat) (p cl : str) (flag perm : N),
   step_hyps s sv -> name_path p cl ->
-  resolved s sv SlLstat p -> no_setgid_p s sv false p ->
+  resolved s sv SlLstat p ->
   has flag O_CREATE = true -> has flag O_EXCL = true ->
   open_sim (open_file s (sv_view sv) vi p flag perm) (k_open s sv p flag perm).
 Proof. exact step_open_excl_p. Qed.
